@@ -536,6 +536,31 @@ def default_constructed(so):
             da, db = canon.dump(a), canon.dump(b)
         except Exception:  # noqa
             continue
+        # defaults that are drawn once per *process* (a session id or cookie created when the class is defined) look
+        # constant here but differ from process to process: every defaulted field holding >= 8 octets (bytes or a
+        # vector of octets) is given the counting pattern 0, 1, 2, ... of the same type and length
+        kw0 = dict(kwargs)
+        for name in defaulted:
+            try:
+                v = getattr(a, name)
+            except AttributeError:
+                continue
+            try:
+                if isinstance(v, (bytes, bytearray)) and len(v) >= 8:
+                    kw0[name] = type(v)(bytes(k % 256 for k in range(len(v))))
+                elif is_lib_object(v) and hasattr(v, '__len__') and len(v) >= 8 and \
+                        all(isinstance(x, int) and not isinstance(x, bool) and 0 <= x < 256 for x in v):
+                    kw0[name] = type(v)([k % 256 for k in range(len(v))])
+            except Exception:  # noqa
+                continue
+        if len(kw0) != len(kwargs):
+            try:
+                a = cls(**copy.deepcopy(kw0))
+                b = cls(**copy.deepcopy(kw0))
+                kwargs = kw0
+                da, db = canon.dump(a), canon.dump(b)
+            except nc:
+                continue
         if da != db:
             kw = dict(kwargs)
             fixed = False
